@@ -340,6 +340,15 @@ def ev(e, env, funcs=None):
             if isinstance(seq, tuple):
                 return seq[0] if seq else ev(e.args[1], env, funcs)
             raise NotClosed('next')
+        if isinstance(e.func, ast.Name) and e.func.id in ('enumerate', 'zip') and not e.keywords:
+            args = [ev(a, env, funcs) for a in e.args]
+            if all(isinstance(a, (tuple, str)) for a in args[:1]) and (e.func.id == 'zip' or len(args) <= 2):
+                if e.func.id == 'zip':
+                    if all(isinstance(a, (tuple, str)) for a in args):
+                        return tuple(zip(*args))
+                else:
+                    return tuple(enumerate(args[0], *(args[1:])))
+            raise NotClosed(e.func.id)
         if isinstance(e.func, ast.Name) and e.func.id in ('len', 'int', 'min', 'max', 'str', 'range', 'tuple', 'list', 'sorted', 'sum', 'any', 'all', 'bool', 'abs') \
                 and not e.keywords:
             args = [ev(a, env, funcs) for a in e.args]
